@@ -1,5 +1,5 @@
 (* C17 -- Link-format parser is total and its two unquoting paths agree. *)
-From CoapV Require Import Base LinkFormat Suite16 proofs.P17.
+From CoapV Require Import Base LinkFormat Suite16 proofs.P17 proofs.P17b.
 
 (* termination: each iterator strictly shortens its remaining input with every item it yields
    (the model functions are total Gallina functions: there is no panic site in the scanners) *)
@@ -36,6 +36,17 @@ Print Assumptions C17_error_is_last.
 Theorem C17_cow_eq : forall v, to_cow v = Ok (unquote_to_string v).
 Proof. exact to_cow_eq. Qed.
 Print Assumptions C17_cow_eq.
+
+(* the whole document, not just one item: driving the three iterators to completion over ANY string yields slices
+   that are the input's content at the reported offsets, left to right without overlap from the first link to the
+   last attribute, with an error only as the very last item and equal unquoted forms -- the suite-170 run-time
+   oracle accepts the model's output for every input *)
+Theorem C17_whole_document : forall w fuel, (length (parse_doc w) < fuel)%nat -> check_links fuel w 0 (parse_doc w) = true.
+Proof. intros w fuel H. apply (check_links_parse _ w [] w 0 0); [reflexivity|reflexivity|apply N.le_refl|exact H]. Qed.
+Print Assumptions C17_whole_document.
+Theorem C17_model_passes_oracle : forall s w, rd_bytes s = Some (w, []) -> verdict170 s (run170 s) = true.
+Proof. exact model_passes_oracle170. Qed.
+Print Assumptions C17_model_passes_oracle.
 
 Example C17_example :
   to_cow [34] = Ok [] /\ to_cow [34; 97; 98; 99] = Ok [97; 98; 99] /\ to_cow [34; 97; 98; 34; 99; 100] = Ok [97; 98] /\
